@@ -16,6 +16,13 @@ usual limits (32, 64, ... 1000/1024, 2048, 3000 levels; 255 ... 65537 members; ~
 each with the plain traversal and with STOP/POP/SKIP/ERROR/undefined answers placed at the far
 end (deepest node, last member, a deep second call).
 Paths are run-length encoded in the observation ("/0^1000/1").
+(4) programs of several traversals — the visitor is documented as a plain function of its
+arguments, so a callback may start another traversal (same tree object or another tree, its own
+user function and argument) before it returns, to any nesting depth, and traversals may follow
+one another; every traversal must be the reference traversal of its own tree and schedule.
+Line syntax:  PROG { ; PROG },  PROG := TREE SCHED { ( K PROG ) }  (see harness/drv_visit.c);
+observation "T<i> <calls> | ret <r>" / "T<i> notrun" joined by " || ", every call with a sixth
+token naming the user argument it arrived with ("own" / "arg<j>").
 
 Direct oracle: `ref_visit`, a reference traversal written from the documentation in
 json_visit.h (and, where the header is silent, from json-c's own tests/test_visit.expected:
@@ -34,6 +41,8 @@ RULE = ("exhaustive: all tree shapes up to N nodes (N=5 quick, 6 thorough) x the
         "random: seeded trees up to ~80 nodes with random and single-deviation schedules; size families: nesting depth ladder "
         "33..3000 (5000 thorough) with mixed array/object spines and sparse siblings, widths 255..65537 members, bushy trees of "
         "10^4 nodes, each with the plain traversal and with codes at the deepest node / last member / a deep second call.  "
+        "programs: systematic (small outer trees x every call position x inner trees x inner/outer answers, same-tree "
+        "and other-tree, consecutive) and random nested programs up to 8 traversals and nesting depth 3.  "
         "A case is non-trivial when more "
         "than one call happened or the result is an error; distinct = distinct (tree, consumed schedule)")
 TRUSTED = ["Coq 8.16.1 kernel (coqc), no axioms (Print Assumptions: closed under the global context)",
@@ -41,6 +50,8 @@ TRUSTED = ["Coq 8.16.1 kernel (coqc), no axioms (Print Assumptions: closed under
            "harness/drv_visit.c (node identity by pointer table built with the plain container API), jvtext.h, gcc -fsanitize=address,undefined",
            "checks/C17.py ref_visit as the reading of json_visit.h"]
 ASSUMPTIONS = ["the callback does not modify the tree or *jso_index during the visit",
+               "overlapping traversals are exercised by nesting (a callback that calls json_c_visit); two threads visiting "
+               "concurrently are not run (the harness is single-threaded)",
                "object members are iterated in insertion order (C06 iteration_order); the model walks the member list",
                "a container that answered SKIP gets no second call (json_visit.h is silent; tests/test_visit.expected shows it)"]
 
@@ -252,6 +263,81 @@ def parse_line(line):
     return t, tree, sched
 
 
+# ---- programs of traversals: (tree | "=", sched, [(k, prog), ...])
+def parse_progs(line):
+    toks = line.split(" ")[1:]
+    pos = [0]
+
+    def prog():
+        t, sc = toks[pos[0]], toks[pos[0] + 1]
+        pos[0] += 2
+        tree = "=" if t == "=" else parse(t)
+        sched = [] if sc == "-" else [int(x) for x in sc.split(",")]
+        nested = []
+        while pos[0] < len(toks) and toks[pos[0]] == "(":
+            k = int(toks[pos[0] + 1])
+            pos[0] += 2
+            nested.append((k, prog()))
+            assert toks[pos[0]] == ")"
+            pos[0] += 1
+        return (tree, sched, nested)
+    out = [prog()]
+    while pos[0] < len(toks):
+        assert toks[pos[0]] == ";"
+        pos[0] += 1
+        out.append(prog())
+    return out
+
+
+def prog_text(p):
+    tree, sched, nested = p
+    return " ".join([tree if tree == "=" else dump(tree), ",".join(str(c) for c in sched) if sched else "-"] +
+                    ["( %d %s )" % (k, prog_text(q)) for k, q in nested])
+
+
+def progs_line(ps):
+    return "visit " + " ; ".join(prog_text(p) for p in ps)
+
+
+def is_simple(ps):
+    return len(ps) == 1 and not ps[0][2]
+
+
+def ref_progs(ps):
+    """every traversal is the reference traversal of its own tree and schedule, whatever runs
+    inside its callback; a nested one happens iff its outer traversal makes the k-th call.
+    Returns [(calls, res) | None] in text order and, per traversal, (parent index, ran children?)"""
+    outs, info = [], []
+
+    def notrun(p, parent):
+        me = len(outs)
+        outs.append(None)
+        info.append([parent, False])
+        for _, q in p[2]:
+            notrun(q, me)
+
+    def run(p, parent, ptree):
+        tree = ptree if isinstance(p[0], str) else p[0]
+        calls, res = ref_visit(tree, p[1])
+        me = len(outs)
+        outs.append((calls, res))
+        info.append([parent, False])
+        for k, q in p[2]:
+            if 1 <= k <= len(calls):
+                info[me][1] = True
+                run(q, me, tree)
+            else:
+                notrun(q, me)
+    for p in ps:
+        run(p, -1, None)
+    return outs, info
+
+
+def progs_obs(outs):
+    return " || ".join("T%d %s" % (i, "notrun" if o is None else " | ".join([c + " own" for c in o[0]] + ["ret %d" % o[1]]))
+                       for i, o in enumerate(outs))
+
+
 # ------------------------------------------------------------------ exhaustive part
 _LEAVES = [None, ("i", 1), True, b"a", None, ("d", jvtext.dbits(1.5), None), ("u", 1 << 63), False, b"", ("i", -7)]
 _KEYS = [b"a", b"", b"b", b"/", b"k2", b"~", b"0", b"zz", b"m~n", b"q"]
@@ -458,8 +544,68 @@ def gen_sizes(rng, tier):
     return out
 
 
+# ------------------------------------------------------------------ several traversals
+_OUTER = ["[n,t]", "{61=[i1,n],62=t}", "[[],{6b=n}]", "[[n,[t]],f]", "{-=[],61={62=[n]},63=n}", "n", "[]",
+          "[[[n]],[t,f]]", "{61=i1,62=i2,63=[n,n,n]}"]
+_INNER = ["n", "[]", "[n]", "{61=[t],62=n}", "="]
+_INNER_SCHED = [[], [STOP], [ERROR], [9], [CONTINUE, POP], [SKIP], [CONTINUE, ERROR], [CONTINUE, CONTINUE, CONTINUE, STOP]]
+
+
+def gen_programs(rng, tier):
+    out = []
+    thorough = tier != "quick"
+
+    def emit(ps, kind):
+        outs, _ = ref_progs(ps)
+        out.append((progs_line(ps), {"kind": kind, "want": progs_obs(outs)}))
+    # systematic: a nested traversal at every call position of small outer trees
+    for ot in _OUTER:
+        outer = parse(ot)
+        plain, _ = ref_visit(outer, [])
+        for k in range(1, len(plain) + 2):
+            for it in _INNER:
+                inner = "=" if it == "=" else parse(it)
+                isc = _INNER_SCHED if thorough else rng.sample(_INNER_SCHED, 3)
+                for isched in isc:
+                    choices = [[], [CONTINUE] * (k - 1) + [SKIP], [CONTINUE] * (k - 1) + [POP], [CONTINUE] * k + [POP],
+                               [CONTINUE] * k + [STOP], [CONTINUE] * (k - 1) + [rng.choice(INVALID)]]
+                    for osched in (choices if thorough else [[]] + rng.sample(choices[1:], 1)):
+                        emit([(outer, osched, [(k, (inner, isched, []))])], "nested")
+        # consecutive traversals: the earlier one must leave nothing behind
+        for first in ([], [STOP], [ERROR], [CONTINUE, POP], [9]):
+            emit([(outer, first, []), (outer, [], []), (parse("[n]"), [CONTINUE, rng.choice([SKIP, STOP, ERROR])], [])], "consecutive")
+    # random programs: up to 8 traversals, nesting depth <= 3, same-tree and other-tree
+    budget = [0]
+
+    def rprog(level, parent_tree):
+        budget[0] += 1
+        if parent_tree is not None and rng.random() < 0.3:
+            tree, real = "=", parent_tree
+        else:
+            for _try in range(10):
+                real = jvtext.gen_tree(rng, depth=rng.choice([1, 2, 3]), size=3, nuls=False)
+                if _kids(real) or rng.random() < 0.15:
+                    break
+            tree = real
+        sched = [_rand_code(rng) if rng.random() < 0.5 else CONTINUE for _ in range(rng.randint(0, 6))]
+        ncalls = len(ref_visit(real, sched)[0])
+        nested = []
+        while level < 3 and budget[0] < 8 and rng.random() < (0.8 if level == 0 else 0.45):
+            k = rng.randint(1, ncalls) if rng.random() < 0.9 else ncalls + rng.randint(1, 2)
+            nested.append((k, rprog(level + 1, real)))
+        nested.sort(key=lambda kq: kq[0])
+        return (tree, sched, nested)
+    for _ in range(700 if not thorough else 20000):
+        budget[0] = 0
+        ps = [rprog(0, None)]
+        while budget[0] < 8 and rng.random() < 0.3:
+            ps.append(rprog(0, None))
+        emit(ps, "program")
+    return out
+
+
 def gen(rng, tier):
-    return gen_exhaustive(tier) + gen_random(rng, tier) + gen_sizes(rng, tier)
+    return gen_exhaustive(tier) + gen_random(rng, tier) + gen_programs(rng, tier) + gen_sizes(rng, tier)
 
 
 # ------------------------------------------------------------------ oracle
@@ -469,6 +615,8 @@ def oracle(line, meta, impl):
     if "LEAK" in impl:
         return ("leak", "allocation leaked: " + impl[-40:])
     want = meta.get("want")
+    if line.count(" ") > 2:
+        return oracle_progs(line, want, impl)
     text, tree, sched = parse_line(line)
     if want is None:
         want, _ = want_obs(tree, sched)
@@ -497,6 +645,33 @@ def oracle(line, meta, impl):
     cls = "seq-after-%s%s" % (prev, "-second" if flags_prev == "2" else "")
     return (cls, "call sequence leaves the documented traversal at call %d (previous answer: %s): got [%s], documented [%s]"
             % (k + 1, prev, gc[k] if k < len(gc) else "end, " + got[-1], ec[k] if k < len(ec) else "end, " + exp[-1]))
+
+
+def oracle_progs(line, want, impl):
+    ps = parse_progs(line)
+    outs, info = ref_progs(ps)
+    if want is None:
+        want = progs_obs(outs)
+    if impl == want:
+        return None
+    got = impl.split(" || ")
+    exp = want.split(" || ")
+    if len(got) != len(exp) or any(not g.startswith("T%d " % i) for i, g in enumerate(got)):
+        return ("malformed", "unexpected driver output: " + impl[:160])
+    i = next(j for j in range(len(exp)) if got[j] != exp[j])
+    parent, ran_children = info[i]
+    if ran_children:
+        cls, role = "reentrancy-outer", "a traversal whose callback ran another traversal"
+    elif parent >= 0:
+        cls, role = "reentrancy-inner", "a traversal started from inside a callback of traversal %d" % parent
+    else:
+        cls, role = "consecutive", "a traversal that follows earlier ones"
+    g, e = got[i].split(" | "), exp[i].split(" | ")
+    k = 0
+    while k < len(g) and k < len(e) and g[k] == e[k]:
+        k += 1
+    return (cls, "traversal %d (%s) is not the reference traversal of its own tree and answers: step %d is [%s], documented [%s]"
+            % (i, role, k + 1, g[k] if k < len(g) else "end", e[k] if k < len(e) else "end"))
 
 
 def classify(line, meta, mo, co):
@@ -599,13 +774,57 @@ def _big_variants(tree):
                     yield rebuild(lvl, newnode)
 
 
+def shrink_progs(ck, line, cls):
+    ps = parse_progs(line)
+
+    def variants(ps):
+        def pv(p):
+            tree, sched, nested = p
+            if sched:
+                yield (tree, [], nested)
+                yield (tree, sched[:-1], nested)
+            if not isinstance(tree, str) and tree is not None:
+                yield (None, sched, nested)
+            for i in range(len(nested)):
+                yield (tree, sched, nested[:i] + nested[i + 1:])
+                k, q = nested[i]
+                if k > 1:
+                    yield (tree, sched, nested[:i] + [(1, q)] + nested[i + 1:])
+                for qv in pv(q):
+                    yield (tree, sched, nested[:i] + [(k, qv)] + nested[i + 1:])
+        for i in range(len(ps)):
+            if len(ps) > 1:
+                yield ps[:i] + ps[i + 1:]
+            for v in pv(ps[i]):
+                yield ps[:i] + [v] + ps[i + 1:]
+    best = ps
+    for _round in range(12):
+        cands = [c for c in itertools.islice(variants(best), 300) if len(progs_line(c)) < len(progs_line(best))]
+        if not cands:
+            break
+        lines = [progs_line(c) for c in cands]
+        _, c, _ = ck.run_pair(lines, "shrink")
+        ok = [cand for i, (cand, l) in enumerate(zip(cands, lines), start=1)
+              if (oracle(l, {}, c.get(i, "MISSING")) or (None,))[0] == cls]
+        if not ok:
+            break
+        best = min(ok, key=lambda c: len(progs_line(c)))
+    return progs_line(best)
+
+
 def shrink(ck, line, cls):
+    import time
+    if line.count(" ") > 2:
+        return shrink_progs(ck, line, cls)
+    t_end = time.time() + 40          # large trees: every candidate costs up to a second
     text, tree, sched = parse_line(line)
     best = (tree, sched)
 
     def size(t, s):
         return (_count(t), len(s), sum(1 for c in s if c != CONTINUE), len(dump(t)))
     for _round in range(24):
+        if time.time() > t_end:
+            break
         t, s = best
         big = _count(t) > 150
         cands = []
@@ -628,6 +847,8 @@ def shrink(ck, line, cls):
                 cands.append((tv, s))
         bs = size(*best)
         cands = [c for c in cands if size(*c) < bs]
+        if big:
+            cands = cands[:10 if bs[0] > 5000 else 24]
         if not cands:
             break
         lines = [mkline(dump(ct), cs) for ct, cs in cands]
